@@ -146,15 +146,17 @@ func writeAux(root string, aux map[string]string) error {
 
 // runResult is what one direct Extract call did.
 type runResult struct {
-	Pkgs     int
-	Err      error
-	Panicked bool
-	PanicVal string
-	Site     string // innermost function of the repository on the panic stack
-	Stack    string
-	Dur      time.Duration
-	Alloc    uint64
-	TimedOut bool
+	// Malformed describes an inventory no consumer can use (a nil package entry).
+	Malformed string
+	Pkgs      int
+	Err       error
+	Panicked  bool
+	PanicVal  string
+	Site      string // innermost function of the repository on the panic stack
+	Stack     string
+	Dur       time.Duration
+	Alloc     uint64
+	TimedOut  bool
 	// AllocStopped: the call was abandoned while still running because it had exceeded the
 	// allocation budget.
 	AllocStopped bool
@@ -314,6 +316,12 @@ func extractInTree(ext *extInfo, root, treePath string, timeout time.Duration) (
 		}()
 		inv, err := ex.Extract(context.Background(), in)
 		r.Pkgs = len(inv.Packages)
+		for i, p := range inv.Packages {
+			if p == nil {
+				r.Malformed = fmt.Sprintf("Extract returned an inventory whose package %d of %d is a nil *extractor.Package (returned error: %v)", i, len(inv.Packages), err)
+				break
+			}
+		}
 		r.Err = err
 	}()
 	var r runResult
